@@ -147,6 +147,8 @@ def parse_items(ts):
     i = 0
     n = len(toks)
     while i < n:
+        start = i
+        nitems = len(items)
         attrs, i = take_attrs(toks, i)
         if i >= n:
             break
@@ -259,6 +261,8 @@ def parse_items(ts):
         else:
             items.append(Item('other', safe_str(TS([t])), attrs))
             i += 1
+        for it in items[nitems:]:
+            it.raw = toks[start:i]
     return items
 
 
